@@ -3,13 +3,19 @@ from propcfg.common import COMMON_ASSUME
 CFG = {
     "bin": "c15",
     "technique": "Lean 4 proof (flat-tree model of the package directory: lookup after write / remove_dir_all / a fold of wipe-then-write steps; "
-                 "C13's build-order theorem carried through execute; C14's descriptor model for composites) + differential correspondence "
+                 "C13's build-order theorem carried through execute; the selection clause as a function `selectionOf ws inv` that has no package directory among its inputs; "
+                 "C14's descriptor model for composites) + differential correspondence "
                  "against the real cargo-libcnb executable built from /repo on generated cargo workspaces",
     "level_text": "PARTIAL (cargo, rustc, the ignore walker and the file system are runtime). Theorems on the model of `execute` "
                   "(every workspace, invocation directory, profile, --package-dir and EVERY tree found in the package directory; no bound): "
                   "selection — the packaged buildpacks are exactly the selected ones (the buildpack whose directory is the invocation directory, "
                   "else all libcnb.rs/composite buildpacks from the workspace root) and their transitive libcnb: dependencies, each once, "
-                  "dependencies first (via C13); contents — the output directory of every packaged libcnb.rs buildpack holds the byte-identical "
+                  "dependencies first (via C13); selection_independent_of_package_dir — what a successful run selects, packages (order) and prints is "
+                  "`selectionOf ws inv`, a function of workspace and invocation directory only, for EVERY --package-dir (outside the workspace, the "
+                  "workspace root, an ancestor of buildpack source directories, a buildpack's own directory ...): the package directory enters "
+                  "the result only through the names of the output directories; outcome_independent_of_package_dir — two runs from the same "
+                  "directory with any two configurations / package directories / pre-existing trees both succeed or fail with the same error, "
+                  "package the same ids in the same order and print the output directories of the same ids; contents — the output directory of every packaged libcnb.rs buildpack holds the byte-identical "
                   "buildpack.toml, the main binary as bin/build, bin/detect -> build, every additional bin target under "
                   ".libcnb-cargo/additional-bin/<name>, a package.toml, and nothing else; of every composite the byte-identical buildpack.toml and "
                   "the package.toml normalised by C14's model under a map sending ids only to output directories of buildpacks packaged in this run, "
@@ -23,7 +29,9 @@ CFG = {
                   "'normalised', 'same as packaging into an empty directory'; its executable judge is what is applied to the implementation's "
                   "observations and is NOT proved equivalent to the Prop-level definitions the theorems use); harness (generation of a real cargo "
                   "workspace from the abstract one, tokenisation of file contents: artifacts are recognised by an embedded marker AND byte equality "
-                  "with target/<triple>/<profile>/<bin>) and driver glue. Modelled, not verified: cargo (locate-project, metadata, build, "
+                  "with target/<triple>/<profile>/<bin>; when the package directory is or holds workspace sources, the observed tree is what lies below "
+                  "it minus the sources as materialised and minus cargo's target/ and Cargo.lock, and the sources are compared before/after on their own: "
+                  "a changed source entry is a spec failure) and driver glue. Modelled, not verified: cargo (locate-project, metadata, build, "
                   "artifact location), rustc, ignore::Walk (the walk order is irrelevant to the observed result; hidden directories are "
                   "skipped by the walker and not generated), std::fs (remove_dir_all is taken to succeed — the code ignores its result; as root it "
                   "does), petgraph, toml/serde, uriparse, clap. Error runs are compared by error class and stdout only (the tree after a failed run "
@@ -54,17 +62,40 @@ CFG = {
             "absolute with trailing slash, absolute with ..), and package-directory history: clean 6/20; 1..6 pre-seeded entries 7/20 (stale "
             "files, a directory where a file belongs, a file where a directory belongs, stale and dangling symlinks incl. bin -> elsewhere "
             "and the output directory itself a symlink, truncated binary, foreign content elsewhere, other profile); 7/20 a real earlier run "
-            "(other invocation directory, 1/4 other profile) followed by 0..5 crash-like deletions / overwrites of what it wrote. Every case "
+            "(other invocation directory, 1/4 other profile) followed by 0..5 crash-like deletions / overwrites of what it wrote. "
+            "part 3 (the relation between the package directory and the source tree; switch VERIF_C15_NO_PKGDIR_RELATIONS=1 leaves it out): "
+            "3a bounded: four of the fixed workspaces (single buildpack + foreign; two buildpacks + foreign + two composites; root = libcnb.rs "
+            "buildpack; own-workspace crate) x invocation directories (root, a libcnb.rs directory, a composite directory, a plain directory, the "
+            "own-workspace crate) x package directory = the root of the cargo workspace / every plain ancestor of buildpack directories "
+            "(of all = anc-all, of some = anc-some) / every buildpack's own directory incl. foreign / <crate>/src / a fresh sibling of buildpack "
+            "directories / a fresh directory inside cargo's target/ (from non-root invocation directories: the root, the invocation directory "
+            "itself and one directory per other relation), spelled in rotation as relative path (`.` / `..` / `bps` ...), absolute, absolute with "
+            "trailing slash, absolute with .., relative with .., through a symbolic link $T/lnk (with and without trailing slash); first run, "
+            "ignore file covering <package dir>/<triple>/ only (the sources stay visible), dev 2/3 release 1/3 = 88 cases; 3b: 14 (quick) / 150 "
+            "(thorough) seeded random workspaces (same workspace generator as part 2) x invocation from the root (twice when the root is no "
+            "buildpack) + one or two libcnb.rs/composite directories + 1/3 a plain directory, x a uniformly drawn relation of those present, a "
+            "directory of that relation, a spelling, a profile, and history: first run with ignore file 5/12, first run WITHOUT any ignore file "
+            "2/12, 1..6 pre-seeded stale entries 2/12, a real earlier run into the same directory + 0..5 deletions 3/12 (ignore file present). "
+            "Buildpack ids are drawn from a fixed list none of which names a source path below <dir>/<triple>/<profile>/, so the destination wipe "
+            "cannot reach sources by construction; sources are compared before/after anyway. Every case "
             "runs cargo for real (8 in parallel, 120 s limit per run, a timeout is retried once alone and reported as such). non-trivial = a "
             "successful run that rebuilt over stale/earlier content or packaged a dependency beyond the selection or a crate with several "
-            "bin targets, or a run that must fail for an undetermined main binary; distinct = distinct case line",
+            "bin targets or wrote its output into a directory that is or holds buildpack sources, or a run that must fail for an undetermined "
+            "main binary; distinct = distinct case line",
     "trusted_base": ["Spec/Packaging.lean is my reading of the property text (selection, output directory layout, main binary, normalised, nothing else)",
                      "the abstraction from a generated cargo workspace to the model's abstract workspace (ids, directories, package names, bin targets, "
                      "descriptor bytes) is part of the harness; so is the recognition of artifacts and of package.toml documents",
-                     "cargo/rustc/ignore::Walk/std::fs are runtime: modelled (Content.artifact, ws.dirs, flat tree), sampled by the correspondence"],
+                     "cargo/rustc/ignore::Walk/std::fs are runtime: modelled (Content.artifact, ws.dirs, flat tree), sampled by the correspondence",
+                     "the harness hides the materialised workspace sources and cargo's target/ + Cargo.lock from the tree observed below a package "
+                     "directory that holds them, and reports a changed source entry separately (src-changed => spec failure); the symbolic link "
+                     "$T/lnk to a workspace directory is resolved by the harness only"],
     "assumptions": COMMON_ASSUME + ["cargo locate-project --workspace resolves to the innermost enclosing crate that is its own workspace, else to the outer root "
                                     "(Model effectiveWorkspace; cargo is runtime, sampled)",
-                                    "the workspace carries an ignore file (.ignore) for the package directory (property quantifier)",
+                                    "the workspace carries an ignore file (.ignore) for the output directory (property quantifier): the package directory itself when it is a "
+                                    "fresh directory, <package dir>/<target triple>/ when the package directory is or holds workspace sources (ignoring it as a "
+                                    "whole would hide the buildpacks); without any ignore file only first runs (nothing to re-discover) are exercised",
+                                    "the package directory is not cargo's target/ directory itself (bin target names would collide with output directory names) "
+                                    "and not a directory above the workspace root; no buildpack id names an existing source path below <package dir>/<triple>/<profile>/",
                                     "buildpack ids are pairwise distinct, their directory names are not '.' or '..', libcnb: references form a DAG",
                                     "remove_dir_all of an output directory succeeds (its result is ignored by the code; it does for root and for anything the tool itself writes)",
                                     "every libcnb.rs crate is a member of the cargo workspace at the root or (kind S) its own workspace excluded from it; bin target names are unique per workspace; "
